@@ -25,7 +25,7 @@ STUBBED_NAMES = fsmodel.STUBBED_NAMES
 ASSUMPTIONS = [fastenv.ASSUMPTION, "file-system model = POSIX as validated by the differential self-test of this run", "clock stub"]
 OUTSIDE = ["pipelines other than P3 (depth 3, shared sub-node, run-time-argument keep) and P1", "failures inside dds's own analysis", "DBFS store"]
 FUNCTIONS_ENCODED = ["dds._api._eval", "dds._api._eval_new_ctx", "dds._api.keep", "dds._api.eval", "dds._api.load", "dds.store.MemoryStore.*", "dds.store.LocalFileStore.*"]
-BOUNDS = {"quick": {"failing invocation": "every one of the 5 invocations of the cold run", "exception classes": ["ValueError subclass", "KeyboardInterrupt", "BaseException subclass"], "follow-ups": ["same pipeline repaired", "other pipeline"], "stores": ["memory", "local"]}}
+BOUNDS = {"quick": {"failing invocation": "every one of the 5 invocations of the cold run", "exception classes": ["ValueError subclass", "KeyboardInterrupt", "BaseException subclass", "FileNotFoundError (an OSError, like the store's own I/O errors)"], "follow-ups": ["same pipeline repaired", "other pipeline"], "stores": ["memory", "local"]}}
 BOUNDS["thorough"] = BOUNDS["quick"]
 LAST_DETAIL = [""]
 INT_DIR, DATA_DIR = "/s/int", "/s/data"
@@ -82,7 +82,7 @@ def fail_impl(a):
     inner = dstore.MemoryStore() if sel["store"] == "memory" else dstore.LocalFileStore(INT_DIR, DATA_DIR)
     rec = _Rec(inner)
     api._store_var = rec
-    exc = [MyErr("boom"), KeyboardInterrupt(), MyBase("base")][ek]
+    exc = [MyErr("boom"), KeyboardInterrupt(), MyBase("base"), FileNotFoundError(2, "no such input")][ek]
     tick.reset()
     tick.FAIL.update({"at": k, "exc": exc, "n": 0})
     got = None
@@ -91,10 +91,13 @@ def fail_impl(a):
         got = "returned"
     except DDSException as e:
         got = e
-    except BaseException as e:  # the exception object created above (never a CrossHair control exception: it is raised by tick.hit)
-        if e is not exc:
-            raise
-        got = e
+    except BaseException as e:
+        if e is exc:
+            got = e  # the exception object created above
+        elif isinstance(e, Exception) and type(e).__module__ == "builtins":
+            got = e  # another ordinary exception came out instead (e.g. a TypeError of the functions that were waiting)
+        else:
+            raise  # CrossHair's own control flow
     finally:
         tick.FAIL.update({"at": -1, "exc": None})
     failing = p3.ORDER[k]
@@ -153,7 +156,7 @@ def fail_impl(a):
 
 
 def make_fn(fn, sel, tag):
-    return h.gen_fn(tag, "fail", [("k", "int"), ("ek", "int"), ("follow", "int"), ("pay", "str")], ["0 <= k <= 4", "0 <= ek <= 2", "0 <= follow <= 1", "len(pay) <= 1 and pay.isascii()"], "harness.C10", "fail_impl")
+    return h.gen_fn(tag, "fail", [("k", "int"), ("ek", "int"), ("follow", "int"), ("pay", "str")], ["0 <= k <= 4", "0 <= ek <= 3", "0 <= follow <= 1", "len(pay) <= 1 and pay.isascii()"], "harness.C10", "fail_impl")
 
 
 def queries(tier):
